@@ -25,6 +25,28 @@ func (p *PIDZero) ReloadAll() {
 	p.reloadListener <- struct{}{}
 }
 
+// reloadOnSignal hands a SIGHUP to the reload manager. Unlike ReloadAll it never
+// blocks forever: without a Reloadable runnable there is no reload manager to accept
+// the request, and a request still waiting when the supervisor shuts down is dropped.
+func (p *PIDZero) reloadOnSignal() {
+	reloadable := false
+	for _, r := range p.runnables {
+		if _, ok := r.(Reloadable); ok {
+			reloadable = true
+			break
+		}
+	}
+	if !reloadable {
+		p.logger.Debug("SIGHUP ignored, no reloadable runnables")
+		return
+	}
+	select {
+	case p.reloadListener <- struct{}{}:
+	case <-p.ctx.Done():
+		p.logger.Debug("Reload request dropped, supervisor is shutting down")
+	}
+}
+
 // startReloadManager starts a goroutine that listens for reload notifications
 // and calls the reload method on all reloadable services. This will also prevent
 // multiple reloads from happening concurrently.
